@@ -4,7 +4,7 @@ seed=${1:-0}; par=${2:-4}
 ls -d /verif/seeded/*/ | xargs -P $par -I{} bash -c '
   sd=$(basename {}); prop=$(python3 -c "import json;print(json.load(open(\"{}meta.json\"))[\"property\"])")
   d=$(mktemp -d /tmp/rc_XXXXXX); git -C /repo worktree add -q --detach $d HEAD 2>/dev/null
-  if git -C $d apply {}patch.diff 2>/dev/null; then
+  if git -C $d apply {}patch.diff 2>/dev/null || git -C $d apply --3way {}patch.diff >/dev/null 2>&1; then
     n=$(VERIF_SEED='$seed' VERIF_REPO=$d /verif/check $prop --tier quick 2>&1 | grep -c "^VIOLATION")
     echo "$sd $prop seed='$seed' violations=$n"
   else echo "$sd $prop PATCH-DOES-NOT-APPLY"; fi
